@@ -141,6 +141,8 @@ pub struct WorkerCtx {
     /// distinct signature once. Used to enumerate findings, never by the registered commands.
     pub collect: bool,
     pub collected: BTreeSet<String>,
+    /// Budget of proptest shrink iterations per failing shard.
+    pub shrink_iters: u32,
 }
 
 fn emit(v: Value) {
@@ -218,8 +220,8 @@ impl WorkerCtx {
                 cases: cases_per_shard,
                 failure_persistence: None,
                 rng_seed: RngSeed::Fixed(seed),
-                max_shrink_iters: 4000,
-                max_shrink_time: 0,
+                max_shrink_iters: self.shrink_iters,
+                max_shrink_time: 60_000,
                 max_global_rejects: cases_per_shard.saturating_mul(4).max(1024),
                 verbose: 0,
                 source_file: None,
@@ -1097,6 +1099,7 @@ pub fn worker_main(prop: &dyn Prop, args: &[String]) -> i32 {
                     minimize: None,
                     collect: std::env::var("VERIF_COLLECT").is_ok(),
                     collected: BTreeSet::new(),
+                    shrink_iters: 4000,
                 };
                 prop.worker(&mut ctx);
             })
